@@ -151,6 +151,10 @@ def gen_ops(rng, chart, P):
     w["dispatch"] = 60
   if chart.get("live_trace"):
     w["dispatch"] = 0     # live output is a feature of next_rtc-driven charts (DESIGN 6)
+  if host == "queued" and rng.random() < P.get("p_prepost", 0.15):
+    # events posted to (or deferred by) the chart before it is started: they wait in its queues; the start is recorded as usual
+    pre = [[rng.choice(["post_fifo", "post_lifo", "defer"]), rng.choice(sigs)] for _ in range(rng.randint(1, 2))]
+    ops = pre + ops
   names = [k for k in w if w[k] > 0]
   for _ in range(rng.randint(*P["nops"])):
     k = rng.choices(names, [w[x] for x in names])[0]
